@@ -22,7 +22,7 @@ NA = {
  "C16": "pure function of the list of inputs to merge (quantifier: inputs only)",
  "C17": "formula conformance over inputs and configurations; the one history-dependent aspect (stale centroid cache after a setter) is covered by C03's LIVE-vs-REOPEN differential",
 }
-PENDING = [ "C15"]
+PENDING = []
 
 def main():
     import importlib.util, os
